@@ -536,6 +536,52 @@ fn special_cases(quick: bool, out: &mut JobOut) {
             judge1(format!("alias1d:m{m}:x{xinc}:{yok}"), r, want, out, format!("Interp1D with x = data.column(0) = {:?}", x.to_vec()));
         }
     }
+    // (4) integer element types (signed and unsigned): the verdict must not depend on being able to
+    // form a negative difference
+    macro_rules! int_axes {
+        ($($t:ty),*) => {$(
+            for n in 2..=5usize {
+                let inc: Vec<$t> = [1, 3, 6, 10, 15][..n].iter().map(|&v| v as $t).collect();
+                let mut variants: Vec<(String, Vec<$t>, bool)> = vec![("increasing".into(), inc.clone(), true)];
+                for p in 0..n - 1 {
+                    let mut t = inc.clone();
+                    t[p + 1] = t[p];
+                    variants.push((format!("tie@{p}"), t, false));
+                    let mut d = inc.clone();
+                    d[p + 1] = d[p] - 1;
+                    variants.push((format!("dip@{p}"), d, false));
+                    let mut z = inc.clone();
+                    z[p + 1] = 0;
+                    variants.push((format!("zero@{}", p + 1), z, false));
+                }
+                let mut dec = inc.clone();
+                dec.reverse();
+                variants.push(("decreasing".into(), dec, false));
+                variants.push(("constant".into(), vec![7 as $t; n], false));
+                let mut top = inc.clone();
+                top[n - 1] = <$t>::MAX;
+                variants.push(("increasing-to-MAX".into(), top.clone(), true));
+                top[0] = <$t>::MIN;
+                variants.push(("MIN-to-MAX".into(), top.clone(), true));
+                top.reverse();
+                variants.push(("MAX-to-MIN".into(), top, false));
+                for (name, x, ok) in variants {
+                    let want: &[&'static str] = if ok { &[] } else { &["Monotonic"] };
+                    let xa = Array1::from(x.clone());
+                    let d1 = Array1::<$t>::from_elem(n, 1 as $t);
+                    let r = catch(|| Interp1DBuilder::new(d1.clone()).x(xa.clone()).build().map(|_| ()));
+                    judge1(format!("int1d:{}:n{n}:{name}", stringify!($t)), r, want, out, format!("Interp1D<{}>, x = {x:?}", stringify!($t)));
+                    let d2 = Array2::<$t>::from_elem((n, 2), 1 as $t);
+                    let r = catch(|| Interp2DBuilder::new(d2.clone()).x(xa.clone()).build().map(|_| ()));
+                    judge1(format!("int2dx:{}:n{n}:{name}", stringify!($t)), r, want, out, format!("Interp2D<{}>, x = {x:?}", stringify!($t)));
+                    let d3 = Array2::<$t>::from_elem((2, n), 1 as $t);
+                    let r = catch(|| Interp2DBuilder::new(d3.clone()).y(xa.clone()).build().map(|_| ()));
+                    judge1(format!("int2dy:{}:n{n}:{name}", stringify!($t)), r, want, out, format!("Interp2D<{}>, y = {x:?}", stringify!($t)));
+                }
+            }
+        )*};
+    }
+    int_axes!(u8, u16, u32, u64, usize, i8, i32, i64);
     // (3) the default index axis of a long f32 data set is not strictly increasing (2^24 + 1 is
     // not representable): build must report it, not hand out an interpolator
     let n = (1usize << 24) + 2;
